@@ -83,7 +83,14 @@ func (o *OracleC03) After(x *Exec, op *Op, res *Res) {
 	for _, denom := range s.AssetOrder {
 		a := s.Assets[denom]
 		if a.TotalValidatorShares.IsNegative() {
-			x.Fail("C03", "negative", "asset %s share total negative: %s", denom, a.TotalValidatorShares)
+			// dust-sized negative total: the rounding clamp zeroed the validator's record while the
+			// asset total was reduced by the (slightly larger) computed amount — listed finding F-C03
+			if b := o.budget[denom]; b != nil && ratAbs(decRat(a.TotalValidatorShares)).Cmp(b) <= 0 {
+				x.KnownFinding("F-C03")
+				x.Label("c03:dust-negative-total")
+			} else {
+				x.Fail("C03", "negative", "asset %s share total negative: %s", denom, a.TotalValidatorShares)
+			}
 		}
 		if a.TotalTokens.IsNegative() {
 			x.Fail("C03", "negative", "asset %s staked total negative: %s", denom, a.TotalTokens)
